@@ -98,6 +98,25 @@ Definition lm (tol : Qc) (m : res (list Qc)) (o : obs (list Qc)) : bool := res_m
                           "alpha": rng.choice(ALPHAS)})
         for _ in range(2 * k):   # reference
             cases.append(self.mk_ref(rng, big))
+        # decimal sampling grids (0.1, 0.2, 0.05, 0.3 — not binary fractions) with reference points written as the midpoint of two
+        # neighbouring samples, (x[i] + x[i+1]) / 2 in floats: which sample is closest is decided by the two distances as they are
+        # (both subtractions are exact there, by Sterbenz' lemma; cases where they are not are dropped as in C10, DESIGN 3.6) —
+        # not by a recomputed, rounded midpoint
+        from tools.props.C10 import near_tie
+        made = 0
+        while made < (10 if not big else 60):
+            step = rng.choice([0.1, 0.2, 0.05, 0.3])
+            N = rng.randint(8, 16)
+            x0 = rng.choice([0.0, 0.5, 1.0])
+            x = [x0 + i * step for i in range(N)]
+            idx = sorted(rng.sample(range(N - 1), rng.randint(2, 4)))
+            xr = sorted({(x[i] + x[i + 1]) / 2 for i in idx} | ({x[0]} if rng.random() < 0.5 else set()) | ({x[-1]} if rng.random() < 0.5 else set()))
+            if len(xr) < 2 or any(near_tie(x, v) for v in xr):
+                continue
+            cases.append({"kind": "reference", "x": x, "y": gens.values(rng, N, "int"), "xr": xr, "yr": gens.values(rng, len(xr), "int"),
+                          "rt": rng.choice(["trapezoid", "rectangle"]), "rr": rng.choice(["rectangle", "trapezoid"]),
+                          "alpha": rng.choice([1.0, 2.0, 0.5]), "mode": "strategy", "strategy": "closest"})
+            made += 1
         # rejection classes
         for _ in range(12):
             c = self.mk_ref(rng, False)
